@@ -83,12 +83,14 @@ package engine
 
 // The VM's sizer carries exactly the configured output size (C01).
 //@ func (*DefaultEngine).setupVm
-//@   serves C01
+//@   serves C01, C07
 //@   requires en != nil && en.st != nil && state.flagsOk(en.st) && en.rs != nil && vm.memOk(en.ca) && vm.memWf(en.ca) && count(flagcount) == int(en.st.BitSize)
 //@   requires en.st.input == nil || !sameBacking(en.st.input, en.st.Flags)
 //@   modifies en.vm
 //@   ensures @wired wired(en) && vm.vmOk(en.vm) && render.pageOk(en.vm.pg) && vm.session(en.vm) && fresh(en.vm)
 //@   ensures @sized sized(en) && (en.cfg.OutputSize == 0 ==> en.vm.sizer == nil)
+// the configured menu separator is in force from the first render on (C07)
+//@   ensures[C07] @separator en.cfg.MenuSeparator != "" ==> en.vm.mn.sep == en.cfg.MenuSeparator
 
 // First-time setup from the configuration and the persister (assumed as a
 // whole: cbor, the storage backends and language lookup are outside reach).
